@@ -383,3 +383,7 @@ func TestMain(m *testing.M)   { vf.Main(m, "C14") }
 func TestCorpus(t *testing.T) { vf.Corpus(t) }
 func TestProp(t *testing.T)   { vf.RunAll(t) }
 func TestReplay(t *testing.T) { vf.ReplayEnv(t) }
+
+// native fuzz targets (thorough tier): the fuzzer mutates the byte stream that rapid decodes into generator choices
+func FuzzCPCard(f *testing.F) { vf.FuzzNamed(f, "C14", "card") }
+func FuzzCPPB(f *testing.F) { vf.FuzzNamed(f, "C14", "pb") }
